@@ -70,14 +70,32 @@ func keyNat(k string) string {
 const kwChunk = 1200
 
 // genKeywordFiles writes <prefix>0..N.lean chunk modules plus the joining module.
-func genKeywordFiles(dir, modPrefix, ns string, es []kwEntry) {
+// writeTree renders a balanced search tree over the sorted entries as a nested constructor term.
+func writeTree(b *strings.Builder, es []kwEntry, depth int) {
+	if len(es) == 0 {
+		b.WriteString("leaf")
+		return
+	}
+	m := len(es) / 2
+	ind := strings.Repeat(" ", depth)
+	b.WriteString("node (")
+	writeTree(b, es[:m], depth+1)
+	fmt.Fprintf(b, ")\n%s%d %s %d\n%s(", ind, len(es[m].key), keyNat(es[m].key), es[m].val, ind)
+	writeTree(b, es[m+1:], depth+1)
+	b.WriteString(")")
+}
+
+func genKeywordFiles(dir, modPrefix, ns string, es []kwEntry, withTree bool) {
 	n := (len(es) + kwChunk - 1) / kwChunk
 	if n == 0 {
 		n = 1
 	}
-	var imports, names []string
+	var imports, names, trees []string
 	for c := 0; c < n; c++ {
 		var b strings.Builder
+		if withTree {
+			b.WriteString("import LibInj.Sqli.KwTree\n")
+		}
 		fmt.Fprintf(&b, "/-! GENERATED from /repo by vharness tables — do not edit. -/\nnamespace %s\n\n", ns)
 		fmt.Fprintf(&b, "def kwChunk%d : List (Nat × Nat × Nat) := [\n", c)
 		lo, hi := c*kwChunk, (c+1)*kwChunk
@@ -91,7 +109,14 @@ func genKeywordFiles(dir, modPrefix, ns string, es []kwEntry) {
 			}
 			fmt.Fprintf(&b, "  (%d, %s, %d)%s\n", len(es[i].key), keyNat(es[i].key), es[i].val, sep)
 		}
-		fmt.Fprintf(&b, "]\n\nend %s\n", ns)
+		fmt.Fprintf(&b, "]\n\n")
+		if withTree {
+			fmt.Fprintf(&b, "open LibInj.Sqli.KwTree in\ndef kwTree%d : LibInj.Sqli.KwTree :=\n", c)
+			writeTree(&b, es[lo:hi], 1)
+			b.WriteString("\n\n")
+			trees = append(trees, fmt.Sprintf("kwTree%d", c))
+		}
+		fmt.Fprintf(&b, "end %s\n", ns)
 		writeIfChanged(filepath.Join(dir, fmt.Sprintf("Kw%d.lean", c)), []byte(b.String()))
 		imports = append(imports, fmt.Sprintf("import %s.Kw%d", modPrefix, c))
 		names = append(names, fmt.Sprintf("kwChunk%d", c))
@@ -107,7 +132,11 @@ func genKeywordFiles(dir, modPrefix, ns string, es []kwEntry) {
 	var b strings.Builder
 	b.WriteString(strings.Join(imports, "\n"))
 	fmt.Fprintf(&b, "\n/-! GENERATED from /repo by vharness tables — do not edit.\nThe keyword / fingerprint table `sqlKeywords`: (key length, key as base-256 number, class byte),\nsorted by (length, key). %d entries. -/\nnamespace %s\n\n", len(es), ns)
-	fmt.Fprintf(&b, "def keywords : List (Nat × Nat × Nat) := [%s].flatten\n\nend %s\n", strings.Join(names, ", "), ns)
+	fmt.Fprintf(&b, "def keywords : List (Nat × Nat × Nat) := [%s].flatten\n\n", strings.Join(names, ", "))
+	if withTree {
+		fmt.Fprintf(&b, "/-- the same table as a forest of balanced search trees, one per chunk -/\ndef kwTrees : List LibInj.Sqli.KwTree := [%s]\n\n", strings.Join(trees, ", "))
+	}
+	fmt.Fprintf(&b, "end %s\n", ns)
 	writeIfChanged(filepath.Join(dir, "Keywords.lean"), []byte(b.String()))
 }
 
@@ -203,7 +232,7 @@ func cmdTables(args []string) {
 	}
 	os.MkdirAll(dir, 0o755)
 	t := li.VerifGetTables()
-	genKeywordFiles(dir, modPrefix, ns, sortedKeywords(t.Keywords))
+	genKeywordFiles(dir, modPrefix, ns, sortedKeywords(t.Keywords), ns == "LibInj.Gen")
 	genXss(dir, ns, t)
 	genSqliConsts(dir, ns, t)
 	fmt.Printf("tables: %d keywords, %d black tags, %d blacks, %d events\n", len(t.Keywords), len(t.BlackTags), len(t.Blacks), len(t.BlackEvents))
